@@ -33,6 +33,10 @@ def check(ctx, tier):
     mean_rules(ctx, tk)
     from .C17 import first_match
     first_match(ctx, "C05.f", ctx.func(RA + "argmax"))
+    _amin = ctx.func(RA + "argmin")
+    if any(isinstance(x_, ast.Call) and isinstance(x_.func, ast.Attribute) and x_.func.attr in ("unique", "searchsorted", "flatnonzero") for x_ in ast.walk(_amin.node)):
+        # argmin selects its own first hit (it is not written through argmax): same rule
+        first_match(ctx, "C05.f", _amin)
     negation_trick(ctx, tk)
     coh = ctx.cached("coherence", lambda: Coherence(tk))
     report(coh, "C05.e", funcs=[RA + n for n in ("_reduce", "__array_ufunc__", "mean", "sum", "argmax", "argmin")])
